@@ -59,7 +59,8 @@ func instrConfig(outDir string) *instrument.Config {
 			{File: "transport/mux/establisher.go", Pkg: "net", Name: "DialTimeout", NewPkg: "vsim/simnet", NewName: "DialTimeout"},
 		},
 		InPkg: map[string]string{
-			modPath + "/proxy": filepath.Join(sim, "inpkg", "proxy"),
+			modPath + "/proxy":         filepath.Join(sim, "inpkg", "proxy"),
+			modPath + "/transport/mux": filepath.Join(sim, "inpkg", "mux"),
 		},
 		BlockingFns: map[string]map[string]bool{
 			"sync":                                      {"Wait": true},
